@@ -31,7 +31,10 @@ Definition coord_eqb (a b : coord) : bool :=
 
 Inductive mcase :=
 | MetaCase (ready : bool) (version : Z) (c : cluster) (r : mreq) (host : bytes) (port : Z) (obs : cluster)
-| CoordCase (ready : bool) (host : bytes) (port : Z) (obs : coord).
+| CoordCase (ready : bool) (host : bytes) (port : Z) (obs : coord)
+(* through the real handleConnection (net.Pipe): store_ok = the store answered;
+   obs = None: the client got no reply, the connection was closed *)
+| ConnCase (store_ok : bool) (version : Z) (c : cluster) (r : mreq) (host : bytes) (port : Z) (obs : option cluster).
 
 Definition check_mcase (k : mcase) : bool :=
   match k with
@@ -39,6 +42,8 @@ Definition check_mcase (k : mcase) : bool :=
   | MetaCase false v c r host port obs => cluster_eqb (wire_cluster v (not_ready_metadata r)) obs
   | CoordCase true host port obs => coord_eqb (handle_find_coordinator host port) obs
   | CoordCase false host port obs => coord_eqb not_ready_coordinator obs
+  | ConnCase ok v c r host port obs =>
+      opt_eqb cluster_eqb (option_map (wire_cluster v) (conn_metadata ok c r host port)) obs
   end.
 
 (* ------------------------------------------------------------------ *)
